@@ -33,16 +33,25 @@ def check(spec: dict) -> core.CaseResult:
     return dagprop.result(obs, findings, nt, labels, hang_is_violation=False, prop='C02')
 
 
+def judge_obs(case: dict, obs) -> core.CaseResult:
+    ex = oracles.expect_for(case, obs)
+    multi = any(ev[0] == 'batch' and len(ev[1]) >= 2 for ev in obs.events)
+    return core.CaseResult(findings=oracles.c02_ordering(case, obs, ex), nontrivial=multi or len(case['nodes']) >= 3, labels=('exhaustive-small',), summary=None)
+
+
 def plan(tier: str) -> list[dict]:
     q = tier == 'quick'
     jobs = dagprop.std_plan(tier, controlled=(9, 150, 2500), serial=(1, 60, 1200), fork=(2, 25, 500), spawn=(1, 5, 100))
     # focused fan-in cases (failing leaves read by a parent) for the backend that copies dependency results into each child
     jobs += [{'engine': 'spawn:fanin', 'n': 7 if q else 120, 'hashseed': i} for i in range(3)]
     jobs += [{'engine': 'fork:fanin', 'n': 25 if q else 400, 'hashseed': 4}]
-    return jobs
+    return list(jobs) + dagprop.exhaustive_jobs(tier, 4)
 
 
 def run_job(rec: core.Recorder, job: dict, seed: int) -> None:
+    if job['engine'] == 'exhaustive-small':
+        dagprop.run_exhaustive_job(rec, job, judge_obs, failing=True, cached=False)
+        return
     eng = job['engine']
     if eng.endswith(':fanin'):
         core.run_hypothesis(rec, eng, specs.fanin_spec(eng.split(':')[0]), check, max_examples=job['n'], seed=seed, shrink=(rec.tier == 'thorough'))
